@@ -94,6 +94,9 @@ def _strategies():
             o["ext"] = draw(st.sampled_from([".hh", ".xx"]))
         if maybe(10):
             o["ns_stem"] = "_pkg_"
+        if maybe(25):
+            # --templates / --support-templates pointing at a verbatim copy of the built-in templates kept with the inputs
+            o["templates"] = draw(st.sampled_from(["types", "types", "types+support"]))
         if target in ("c", "cpp", "py"):
             if maybe(50):
                 o["endian"] = draw(st.sampled_from(["any", "little", "big"]))
@@ -340,6 +343,10 @@ def build_argv(u: dict, root: int, target: str, opts: dict, e: dict, lay: Layout
         argv += ["--enable-override-variable-array-capacity"]
     if opts.get("std"):
         argv += ["--language-standard", opts["std"]]
+    if opts.get("templates"):
+        argv += ["--templates", spell(ind / f"tpl_{target}" / "templates", cwd, e["spell"]["root"])]
+        if "support" in opts["templates"] and (ind / f"tpl_{target}" / "support").is_dir():
+            argv += ["--support-templates", spell(ind / f"tpl_{target}" / "support", cwd, e["spell"]["root"])]
     argv += [spell(ind / u["roots"][root]["name"], cwd, e["spell"]["root"])]
     if opts.get("config"):  # nargs="*": after the positional
         argv += ["--configuration", spell(ind / f"cfg_{target}.yaml", cwd, e["spell"]["root"])]
@@ -354,6 +361,11 @@ def ensure_inputs(u: dict, lay: Layout, e: dict) -> None:
         dsdlgen.materialise(u, ind)
         for t in ("c", "cpp"):
             (ind / f"cfg_{t}.yaml").write_text(CONFIG_YAML.format(lang=t))
+        for t in TARGETS:  # verbatim copies of the built-in template sets (option "templates")
+            for sub in ("templates", "support"):
+                srcd = src_dir() / "nunavut" / "lang" / t / sub
+                if srcd.is_dir():
+                    shutil.copytree(srcd, ind / f"tpl_{t}" / sub, ignore=shutil.ignore_patterns("__pycache__", "*.pyc"))
 
 
 def revision_of(u: dict) -> dict:
@@ -989,6 +1001,34 @@ CORPUS_U = {
 }
 
 
+# Second fixed corpus: one type depending on MANY types that tie under the usual normalising sort keys (equal short names in
+# sibling namespaces, names and namespaces that differ only in leading zeros of a digit run, equal lengths, several versions).
+# Whatever order is emitted for them must not come from the iteration order of a set (seeded change C07-E).
+def _ties_universe() -> dict:
+    u8 = {"t": "uint", "bits": 8, "cast": "saturated"}
+    deps = [(["zoo", "v1"], "Cfg"), (["zoo", "v01"], "Cfg"), (["zoo", "v001"], "Cfg"), (["zoo", "v10"], "Cfg"), (["zoo", "v2"], "Cfg"), (["zoo"], "Sensor1"), (["zoo"], "Sensor01"),
+            (["zoo"], "Sensor10"), (["zoo"], "Sensor2"), (["zoo", "a"], "Item"), (["zoo", "b"], "Item"), (["zoo", "c"], "Item"), (["zoo"], "Aa"), (["zoo"], "Bb"), (["zoo"], "Cc")]
+    types = [_t(ns, n, False, [_f(u8, "x")]) for ns, n in deps]
+    for major, minor in ((1, 1), (2, 0)):
+        types.append(dict(_t(["zoo"], "Aa", False, [_f(u8, "x")]), major=major, minor=minor))
+    refs = [{"t": "ref", "full": ".".join(ns + [n]), "major": 1, "minor": 0} for ns, n in deps] + [{"t": "ref", "full": "zoo.Aa", "major": 1, "minor": 1}, {"t": "ref", "full": "zoo.Aa", "major": 2, "minor": 0}]
+    types.append(_t(["zoo"], "Hub", False, [_f(r, f"f{i}") for i, r in enumerate(refs)], extra=8))
+    types.append(_t(["zoo", "deep"], "HubU", True, [_f(r, f"f{i}") for i, r in enumerate(reversed(refs))], extra=8))
+    return {"roots": [{"name": "zoo", "types": types}]}
+
+
+TIES_U = _ties_universe()
+
+
+def ties_case() -> dict:
+    a0 = {"t": 1700000000.0, "hs": 0, "inloc": 0, "outloc": 0, "cwd": "neutral", "spell": {"root": "abs", "out": "abs", "lookup": "abs"},
+          "proc": "fresh", "warm": "c"}
+    pairs = [[copy.deepcopy(a0), dict(copy.deepcopy(a0), hs=hs)] for hs in (1, 2, 3, 4, 5, 6, 7, 12345)]
+    return {"u": TIES_U, "root": 0, "flavour": "corpus-ties",
+            "targets": {t: {"opts": {}, "pairs": copy.deepcopy(pairs)} for t in TARGETS},
+            "control": {"target": "c", "env": copy.deepcopy(a0)}}
+
+
 def corpus_case() -> dict:
     a0 = {"t": 1700000000.0, "hs": 0, "inloc": 0, "outloc": 0, "cwd": "neutral", "spell": {"root": "abs", "out": "abs", "lookup": "abs"},
           "proc": "fresh", "warm": "c"}
@@ -1070,6 +1110,7 @@ def run(ctx: core.Ctx):
     for k, (flavour, share) in enumerate(FLAVOURS):
         cases += draw_cases(ctx, flavour, n_univ * share // 10, n_pairs, seed_offset=7 + k)
     cases.append(corpus_case())
+    cases.append(ties_case())
     from .. import dsdlgen
 
     with tempfile.TemporaryDirectory(prefix="vf-c07-fe-") as td:  # generator soundness: the real front end accepts every universe
@@ -1184,6 +1225,7 @@ def run(ctx: core.Ctx):
     ctx.require("opt.<defaults>", 4 if q else 80)
     ctx.require("pair.control", n_univ)
     ctx.require("flavour.corpus", 12)
+    ctx.require("flavour.corpus-ties", 32)
 
 
 def replay(ctx: core.Ctx, case):
